@@ -18,20 +18,18 @@ theorem compute_saturation_eq (m M : ℝ) (h0 : 0 ≤ m) (h1 : m ≤ M) (h2 : M 
   by_cases hl : 1 / 2 < (m + M) / 2
   · have habs : |m + M - 1| = m + M - 1 := abs_of_nonneg (by linarith)
     rw [if_pos hl, habs]
-    have e2 : 1 - (m + M - 1) = 2 - M - m := by ring
-    rw [e2]
     split_ifs
     all_goals first
       | rfl
       | (exfalso; linarith)
+      | (congr 1; ring1)
       | (rw [show M - m = 0 by linarith]; simp)
   · have habs : |m + M - 1| = -(m + M - 1) := abs_of_nonpos (by linarith)
     rw [if_neg hl, habs]
-    have e2 : 1 - -(m + M - 1) = M + m := by ring
-    rw [e2]
     split_ifs
     all_goals first
       | rfl
+      | (congr 1; ring1)
       | (rw [show M - m = 0 by linarith]; simp)
 
 /-- `Hsl::compute_rgb_value` for a hue in `[0,360)`: the six-sector table with
